@@ -120,6 +120,9 @@ static void run_silent(const Case &c) {
     vp::Block out(c.cfg.size);
     if (persistent_fetch(out.p, &in2.st) != PERSISTENT_ACCESS_SUCCESS) { F(c, "fetch-after-silent-fault", "fetch fails on a healthy medium"); return; }
     bool isold = memcmp(out.p, oldimg.data(), c.cfg.size) == 0, isnew = memcmp(out.p, newpart.data(), c.cfg.size) == 0;
+    // the checksum a correct store leaves is the new image's; a blend that happens to have the same checksum (the 16-bit sum collides easily)
+    // validates through no fault of the library - what must not happen is a checksum derived from the blend itself
+    if (!isold && !isnew && medium_sum(c.cfg) == ref_sum(c.cfg, newpart.data())) { vp::stats().dontcare++; vp::cls("silently-altered-write-collides-with-the-new-checksum"); return; }
     if (!isold && !isnew) { F(c, "silently-altered-image-validates", vp::fmt("the medium kept %s at write call %ld of a full store; afterwards a fresh instance validates an image that is neither the previous nor the new one", c.fkind == 30 ? "one bit of the block unchanged" : "only the first half of the block", c.point)); return; }
     vp::cls("silently-altered-write-harmless");
 }
